@@ -5,11 +5,9 @@ HERE = os.path.dirname(os.path.dirname(os.path.abspath(__file__)))
 
 CLAIMED = {
  'C13': dict(
-   text="Function-level proof (Verus on the verbatim-extracted Int32 arm of DiskRowset::start_rowid): for every sparse first-key index, "
-        "every sorted key column with duplicates and every lower bound, the seek position never skips a row with key >= bound. "
-        "Also: the key-range bitmap is AND-ed with the delete-vector visibility and a row-set scan is ended only when the first row of a batch is past the upper bound (U-vismask); index-entry bookkeeping of finish_block. Partial: the computation of the in-range window over DataValue, the planner's range analysis and the column-position assumptions are not under contract.",
-   note="Assumes: index entries record the key at their first row (writer side, U-finishblock), i32::decode is a function of the bytes, key column = storage column 0, key type Int32.",
-   technique="Verus contracts + loop invariant on mechanically extracted statement range of start_rowid", design='5 (C13), 4.1 U-startrow'),
+   text="Function-level proofs (Verus on verbatim-extracted code) along the whole push-down path: analyze_range is exact (Some((k,r)) iff the condition holds exactly for the keys in r); a range is pushed only for the primary key with bounds of the key's type, any other scan condition is evaluated by a filter on the scan output; the range refers to the primary-key column wherever it stands (block index searched, position in the scanned list); start_rowid never skips a row with key >= bound for every sparse index and key multiset; at row level a row stays visible iff it was visible and its key lies in the range, for every bound kind, and the scan ends early only when the first key of a batch is beyond the upper bound. Bounded: N-sqlrange runs 79 predicates x 4 projections on 5 table shapes x layouts against a full-scan oracle. Partial: sortedness of a RowSet by its key and DataValue ordering within one type are assumptions.",
+   note="Assumes: a RowSet is sorted by its key column (A-sortedrowset); DataValue's derived ordering is the value ordering within one type (A-dvorder); index entries record the key at their first row (U-finishblock); i32::decode is a function of the bytes; iterator-adapter searches replaced by contracted shims (A-position).",
+   technique='Verus contracts + loop invariants on mechanically extracted functions / statement ranges (planner analysis, executor builder, start_rowid, RowSetIterator) + one bounded native SQL search', design='5 (C13), 4.1 U-startrow'),
  'C18': dict(
    text="Function-level proofs of the whole detection chain: checksum build/verify pair (accept iff stored == sum(type,data)); 16-byte block trailer codec and Column::decode_block_meta (Ok iff the trailer parses and the stored sum equals the sum over block[..len-12]); "
         "get_block: only intact blocks enter the cache, a corrupted uncached block errs on every read; ColumnIndex::from_bytes total and Ok iff long enough, magic, checksum over the entry bytes, count entries consume exactly those bytes; writer side (IndexBuilder, BlockIndexBuilder) agrees with the reader. "
@@ -27,44 +25,34 @@ CLAIMED.update({
    note="Assumes A-serde (a byte prefix of concatenated JSON records yields the complete records then at most one EOF error; StreamDeserializer::byte_offset is the end of the last complete record), each append writes Begin..End with End last; file truncation I/O itself unverified; async sequentialised.",
    technique="Verus loop invariant on the extracted replay loop + inductive lemmas over the transaction log", design='5 (C04), 4.4 U-replay'),
  'C03': dict(
-   text="Function-level proofs on the reopen path: replay of a cleanly written log yields exactly the acknowledged operations in order; the boot-time apply loop opens exactly adds minus deletes, re-logs DDL in order and restarts the id generators above every logged row-set id, DV id and DV-referenced row-set id; "
-        "delete-vector files load every record written; DROP TABLE is one drop-complete transaction; catalog id allocation (table-only histories re-derive the same ids; with views/indexes they do not: known finding H8, witness proved). "
-        "Partial: file I/O, DiskRowset::open, vacuum, rewrite_changes are not under contract.",
+   text='Function-level proofs on the reopen path: replay of a cleanly written log yields exactly the acknowledged operations in order; the boot-time apply loop opens exactly adds minus deletes, re-logs DDL in order and restarts the id generators above every logged row-set id, DV id and DV-referenced row-set id; recovery always rewrites the manifest; delete-vector files load every record written; DROP TABLE is one drop-complete transaction; catalog id allocation (table-only histories re-derive the same ids; with views/indexes they do not: known finding H8, witness proved). Bounded: N-sqlhistory reopens inside sampled histories. Partial: file I/O, DiskRowset::open, vacuum, rewrite_changes, large files are not under contract.',
    note="Same assumptions as C04; catalog/DDL persistence of views, indexes and functions is a recorded known finding (H8) where listed.",
-   technique="Verus contracts on extracted manifest replay, bootstrap apply, DV file, DROP TABLE and catalog id code", design='5 (C03), 4.4'),
+   technique='Verus contracts on extracted manifest replay, bootstrap apply, DV file, DROP TABLE and catalog id code + one bounded native history search', design='5 (C03), 4.4'),
 })
 
 CLAIMED.update({
  'C12': dict(
-   text="Function-level proofs on statement ranges extracted from the LIMIT and TopN coroutines: for every (offset, limit) the builder can pass, every chunking and every batch size, "
-        "local row i of a batch is emitted iff its global position lies in [offset, offset+limit); the slice is in bounds; no underflow/overflow; the stop test never cuts a window row; "
-        "TopN heap sizing cannot overflow, keeps offset+limit rows and never pre-allocates more than a window; the merge heap used by ordered scans keeps min-heap order and its multiset of entries (sift-up/sift-down proofs). Partial: ORDER BY/merge order and the planner's 'table is sorted by primary key' assumption are not under contract.",
-   note="Assumes: limit/offset come from non-negative i64 constants (textual guard on executor/mod.rs); yield/continue/break lines, the child stream and DataChunk::slice are not extracted; allocation policy bound 2^32 rows.",
-   technique="Verus contracts on statement ranges extracted from the LIMIT/TopN coroutines", design='5 (C12), 4.5 U-limit/U-topncap'),
+   text="Function-level proofs: LIMIT/OFFSET window arithmetic and TopN heap sizing for every (offset, limit), chunking and batch size; the merge heap, visible-row search and pick loop used by ordered scans (output in key order, visible rows only); the optimizer's order analysis only reports an order through order-keeping operators and is_orderby requires a prefix; the disk scan merges the RowSets by the key column whenever the optimizer assumes key order (never concatenates them). Bounded: N-sqlorder checks ORDER BY / LIMIT / OFFSET results on 3 table shapes x 1-3 RowSets x 4 layouts. Partial: the sort executor itself and the egg rules that consume the analysis are not under contract.",
+   note='Assumes: limit/offset come from non-negative i64 constants (textual guard on executor/mod.rs); A-exec-order (which executors keep order), A-singlepk (binder rejects several PRIMARY KEY columns), A-cmp (comparator is a total preorder); yield/continue/break lines, the child stream and DataChunk::slice are not extracted.',
+   technique='Verus contracts on statement ranges extracted from the LIMIT/TopN coroutines, MergeIterator, analyze_order and scan_inner + one bounded native SQL search', design='5 (C12), 4.5 U-limit/U-topncap'),
 })
 
 CLAIMED.update({
  'C02': dict(
-   text="Function-level proof of the aggregate *step* shared by hash and sort aggregation (Ext::add/or, Evaluator::agg_append, init_agg_state, AggState::result/into_result, extracted verbatim): "
-        "for every state and every input value, SUM/MIN/MAX/COUNT(x)/COUNT(DISTINCT x)/FIRST skip NULL, COUNT-like aggregates start at 0 and the others at NULL. "
-        "Partial (aggregates only): joins, binder lowering, 3VL kernels and the array-level eval_agg (ArrayImpl::sum over raw slots) are not under contract.",
+   text='Function-level proofs: the aggregate step shared by hash and sort aggregation skips NULL for SUM/MIN/MAX/COUNT(x)/COUNT DISTINCT/FIRST and starts COUNT at 0, others at NULL; sort aggregation emits one row per maximal run of equal keys of the whole input, fed exactly that run (independent of chunking); the hash-join and semi-join probes never match a key containing NULL; the order analysis used to pick merge join / sort aggregation. Bounded: N-sqlagg, N-sqljoin, N-sqlexpr compare aggregates, all join kinds, IN/EXISTS and three-valued WHERE/SELECT expressions with oracles over small NULL-rich tables on both engines; ArrayImpl::sum by a bounded Kani harness. Three known findings (NOT IN, and-gt-lt-conflict, eq-trans). Partial: join coroutines as a whole, binder lowering, array kernels and egg rewrite rules are not under contract.',
    note="Assumes A-dvarith (DataValue +/min/max shimmed from the macro text over {Null,Bool,Int32,Int64}), A-hashset, A-egg (children precede parents); integer overflow and mixed variants are preconditions.",
-   technique="Verus contracts on the extracted aggregate step functions", design='5 (C02), 4.5 U-aggstep'),
+   technique='Verus contracts on extracted aggregate step functions, SortAggExecutor::execute, hash-join probes, analyze_order + bounded native SQL searches + one bounded Kani harness', design='5 (C02), 4.5 U-aggstep'),
 })
 
 CLAIMED.update({
  'C06': dict(
-   text="Function-level proofs, layer by layer: fixed-width value codecs round-trip for every value (Kani, in place, all 10 types; Interval sub-day part is a recorded known finding); "
-        "RLE varint round-trips every u32; plain i32 block builder/iterator: bytes written are a function of the appended values and iteration from any position with any batch sizes returns exactly "
-        "items[pos..pos+k] (Verus, extracted); nullable builder/decoder split and iterator cursor pairing; blob (varchar) blocks; RLE iterator/builder against expand(counts, values); dictionary builder/iterator; column scan loop returns consecutive rows at the reported row id; row-set fetch size never crosses a column's block; block index tiling and block_of_row. "
-        "Partial: fixed-width char and vector blocks, builders' finish() write cursors, column builders (Peekable adapters) are not under contract.",
-   note="Assumes: generic code verified at T=i32; bitvec copy statement in NullableBlockIterator::next_batch elided; A-fw axioms backed by the Kani harnesses; rows per block fit usize.",
-   technique="Kani loop-free harnesses in place (codecs) + Verus contracts on extracted block builders/iterators", design='5 (C06), 4.1'),
+   text="Function-level proofs, layer by layer: fixed-width value codecs round-trip for every value (Kani, in place, all 10 types; Interval sub-day part is a recorded known finding); RLE varint round-trips every u32; plain i32 block builder/iterator; nullable builder/decoder split, iterator cursor pairing and the append-not-replace validity of a batch; blob (varchar) blocks; RLE iterator/builder against expand(counts, values); dictionary builder/iterator; column scan loop returns consecutive rows at the reported row id; skip arithmetic; row-set fetch size never crosses a column's block; block index tiling and block_of_row. Bounded: N-column reads whole int/varchar columns built by the real builders under every encoding x nullability x small block sizes x start row x batch/skip pattern (~245k reads); N-charblock for fixed-width char blocks. Partial: builders' finish() write cursors and the column builders (Peekable adapters) are covered by the bounded search only.",
+   note='Assumes: generic code verified at T=i32; BitVec modelled as Seq<bool> (A-bitvec); A-fw axioms backed by the Kani harnesses; rows per block fit usize.',
+   technique='Kani loop-free harnesses in place (codecs) + Verus contracts on extracted block builders/iterators/array builders + bounded native column search', design='5 (C06), 4.1'),
  'C07': dict(
-   text="Function-level proofs: the row address used by DELETE packs/unpacks exactly for every (rowset < 2^31, row) and is injective (Kani, in-place function contracts), so a delete can only address the row that was scanned; "
-        "the hidden row-handler column emits exactly the handles of the scanned rows; the merge heap and visible-row search used by compaction/sorted scans are fully proved; DV files load every record; boot restarts DV / row-set id generators above every logged id. Partial (thin): DeleteVector::apply_to (bitvec iterator chain) is outside both verifiers; DV files, compaction commit and reopen are I/O.",
+   text='Function-level proofs: the row address used by DELETE packs/unpacks exactly for every (rowset < 2^31, row) and is injective (Kani, in-place function contracts); the hidden row-handler column emits exactly the handles of the scanned rows; the merge heap, visible-row search and pick loop used by compaction/sorted scans; delete-vector bits survive the key-range filter; DV files load every record; boot restarts DV / row-set id generators above every logged id. Bounded: N-sqlhistory checks DELETE counts and table contents after every step of sampled insert/delete/reopen histories. Partial (thin): DeleteVector::apply_to is outside both verifiers; compaction commit is I/O; compaction concurrent with DML is not covered.',
    note="Assumes rowset ids < 2^31 (precondition surfaced by the contract; ids are allocated from 0 by a counter).",
-   technique="Kani function contracts in place + Verus contracts on extracted iterators", design='5 (C07), 4.1-4.2'),
+   technique='Kani function contracts in place + Verus contracts on extracted iterators + one bounded native history search', design='5 (C07), 4.1-4.2'),
 })
 
 NA = {
@@ -73,7 +61,7 @@ NA = {
  'C08': "epoch/vacuum safety lives in HashMap/retain/Arc::try_unwrap/Mutex code and Drop; quantifies over schedules; Verus rejects the text unrewritten, Kani ICEs on VersionManagerInner",
  'C09': "compactor vs DML interleavings: concurrency + histories; Kani has no threads, Verus would need a permission-typed re-implementation (a model)",
  'C10': "serialisability of concurrent sessions: schedules over the whole server",
- 'C11': "join/aggregate executors are #[try_stream] coroutines over DataChunk/BitVec/HashMap<Vec<DataValue>,_>: not extractable verbatim; CBMC needs >17 GB on a 2-row kernel (only the shared aggregate step is covered, under C02)",
+ 'C11': "plan-independence of join/aggregate results over all physical plans: the executors are #[try_stream] coroutines over DataChunk/BitVec/HashMap<Vec<DataValue>,_> and the plan choice is egg extraction; only pieces are under contract (aggregate step, sort aggregation, hash-join probes: reported under C02); CBMC needs >17 GB on a 2-row kernel",
  'C14': "kernels are generic iterator adapters + BitVec word tricks + std::simd behind macro_rules!; Verus rejects the text, Kani ran out of memory on a length-2 `or`",
  'C15': "error propagation through spawned tokio tasks and an async_broadcast channel: task/channel semantics, not a function contract",
  'C16': "static-type vs run-time-array agreement is an egg analysis <-> executor relation; the NOT NULL half reduces to a precondition of the non-nullable block builder whose callers (coroutines) cannot be put under contract",
@@ -118,7 +106,7 @@ def main():
         },
         'engines': [
             {'name': 'contract-verus-kani', 'path': '/verif/check', 'serves_properties': sorted(CLAIMED),
-             'kind_free_text': 'contract-based deductive verification: Verus 0.2026.09.13 on functions/statement ranges extracted mechanically from /repo on every run (tools/vx.py, contracts/*.vc); Kani 0.68 function contracts and loop-free harnesses compiled in place from /repo'},
+             'kind_free_text': 'contract-based deductive verification: Verus 0.2026.09.13 on functions/statement ranges extracted mechanically from /repo on every run (tools/vx.py, contracts/*.vc); Kani 0.68 function contracts and loop-free harnesses compiled in place from /repo; bounded native searches on the real database (contracts/native_units.json) as labelled stand-ins and replay source'},
         ],
         'checks': checks,
         'not_applicable': na,
